@@ -24,7 +24,8 @@ Definition eBadObs := 998.
 Inductive piece :=
 | PB (b : list Z)      (* opaque octets *)
 | PN (n : name)        (* name written through the compression table *)
-| PU (n : name).       (* name written without compression (and not entered in the table) *)
+| PU (n : name)        (* name written without compression (and not entered in the table) *)
+| PX (n : name).       (* as PU, and NOT downcased in the canonical form (DNAME, NSEC next, NSAP-PTR) *)
 Definition rdata := list piece.
 
 Record rrset := mkRR {
@@ -76,7 +77,7 @@ Fixpoint rd_to_wire (ps : rdata) (origin : option name) (compress : bool)
   | PB b :: r => rd_to_wire r origin compress (file ++ b) t
   | PN n :: r => do ft <- name_to_wire n origin compress file t;
                  rd_to_wire r origin compress (fst ft) (snd ft)
-  | PU n :: r => do ft <- name_to_wire n origin false file t;
+  | PX n :: r | PU n :: r => do ft <- name_to_wire n origin false file t;
                  rd_to_wire r origin compress (fst ft) (snd ft)
   end.
 
@@ -462,6 +463,7 @@ Section Reader.
   | FCnt8              (* get_counted_bytes(); kept with its length prefix *)
   | FRest1             (* get_remaining(), FormError when empty *)
   | FChk (k : Z)       (* get_remaining() checked by the type's constructor: chk k *)
+  | FNameX             (* as FNameU; the name keeps its case in the canonical form *)
   | FMax16 (m : Z)     (* a 16-bit field whose value the constructor requires to be <= m *)
   | FTxt.              (* one or more <character-string>s up to the end *)
 
@@ -542,6 +544,10 @@ Section Reader.
     else if (rdtype =? 106) || (rdtype =? 104) then Some [FFix 2; FFix 8]
     else if rdtype =? 13 then Some [FCnt8; FCnt8]
     else if rdtype =? 19 then Some [FCnt8]
+    (* DNAME; NSEC; BRID HHIT *)
+    else if rdtype =? 39 then Some [FNameX]
+    else if rdtype =? 47 then Some [FNameX; FChk 4]
+    else if (rdtype =? 68) || (rdtype =? 67) then Some [FRest]
     (* KEY; DS DLV; CDS; ZONEMD; CAA; CSYNC; NSEC3 *)
     else if rdtype =? 25 then Some [FFix 4; FRest]
     else if (rdtype =? 43) || (rdtype =? 32769) then Some [FChk 1]
@@ -562,6 +568,7 @@ Section Reader.
       else if rdtype =? 36 then Some [FFix 2; FNameU]
       else if rdtype =? 26 then Some [FFix 2; FNameU; FNameU]
       else if (rdtype =? 49) || (rdtype =? 22) then Some [FRest]
+      else if rdtype =? 23 then Some [FNameX]      (* NSAP-PTR *)
       (* WKS; NAPTR *)
       else if rdtype =? 11 then Some [FFix 5; FRest]
       else if rdtype =? 35 then Some [FFix 4; FCnt8; FCnt8; FCnt8; FNameC]
@@ -590,6 +597,7 @@ Section Reader.
     | FNameC :: r => do nc <- get_name origin endp cur; dec_fields r origin endp (snd nc) (PN (fst nc) :: acc)
     | FNameU :: r => do nc <- get_name origin endp cur; dec_fields r origin endp (snd nc) (PU (fst nc) :: acc)
     | FNameA :: r => do nc <- get_name None endp cur; dec_fields r origin endp (snd nc) (PU (fst nc) :: acc)
+    | FNameX :: r => do nc <- get_name origin endp cur; dec_fields r origin endp (snd nc) (PX (fst nc) :: acc)
     | FRest :: r => do b <- rd_bytes endp cur (endp - cur); dec_fields r origin endp endp (PB b :: acc)
     | FCnt16 :: r =>
         do l <- rd_u16 endp cur;
@@ -664,6 +672,8 @@ Definition piece_digest (p : piece) : bool * list Z :=
   | PB b => (false, b)
   | PN n | PU n =>
       if is_absolute n then (false, wire_labels true n) else (true, wire_labels true (n ++ [[]]))
+  | PX n =>
+      if is_absolute n then (false, wire_labels false n) else (true, wire_labels false (n ++ [[]]))
   end.
 Definition rd_digest (rd : rdata) : bool * list Z :=
   let ks := map piece_digest rd in (existsb fst ks, concat (map snd ks)).
@@ -889,6 +899,7 @@ Definition obs_of_piece (p : piece) : obs :=
   | PB b => B b
   | PN n => L [I 0; obs_of_name n]
   | PU n => L [I 1; obs_of_name n]
+  | PX n => L [I 2; obs_of_name n]
   end.
 Definition obs_of_rrset (rs : rrset) : obs :=
   L [obs_of_name (rname rs); I (rclass rs); I (rtype rs); I (rcovers rs);
@@ -919,6 +930,7 @@ Definition piece_of_obs (o : obs) : option piece :=
   | B b => Some (PB b)
   | L [I 0; L n] => match name_of_obs n with Some n => Some (PN n) | None => None end
   | L [I 1; L n] => match name_of_obs n with Some n => Some (PU n) | None => None end
+  | L [I 2; L n] => match name_of_obs n with Some n => Some (PX n) | None => None end
   | _ => None
   end.
 Definition rdata_of_obs (o : obs) : option rdata :=
